@@ -5,6 +5,7 @@ import (
 	"fmt"
 	"os"
 	"path/filepath"
+	"regexp"
 	"sort"
 	"strings"
 	"time"
@@ -204,6 +205,17 @@ func (r *Report) Finish(known *KnownFile, evidencePath, replayDir string, starte
 	ruleTable := map[string]any{}
 	for _, rule := range rules {
 		ruleTable[rule] = map[string]any{"doc": r.RuleDoc[rule], "instances": count[rule], "min_instances": r.MinCount[rule]}
+	}
+	// rules added after the explanation was written: named here so that the text stays a complete
+	// account of what was applied (their wording is in the rule table)
+	var later []string
+	for _, rule := range rules {
+		if !regexp.MustCompile(`\b` + regexp.QuoteMeta(rule) + `\b`).MatchString(explanation) {
+			later = append(later, rule+" "+r.RuleDoc[rule])
+		}
+	}
+	if len(later) > 0 {
+		explanation += " Further rules applied (see the rule table): " + strings.Join(later, "; ") + "."
 	}
 	seed := 0
 	fmt.Sscanf(os.Getenv("VERIF_SEED"), "%d", &seed)
